@@ -8,11 +8,12 @@ import PegVerif.Model.Set
   sense of the `intersections` count) into ordered alternatives followed by a `TypeUnorderedAlternate`
   that `compile` emits as `switch buffer[position]`.
 
-  Transcribed as it is, including the properties that make the rewrite unsound for some grammars
-  (the first set of an alternative that can succeed without consuming is incomplete; `consumes`
-  of a choice is that of its LAST alternative; a recursive reference to a rule in progress sees the
-  previous pass's, or the initial, cache entry).  State that Go keeps by mutating nodes in place is
-  threaded explicitly: `bodies` = the current body of every rule.
+  Transcribed as it is (after the repair of the three recorded defects of the rewrite): `consumes`
+  of a choice is the conjunction over ALL its alternatives, a choice with an alternative that may
+  succeed without consuming is left ordered (its first set would be incomplete), and a recursive
+  reference to a rule whose analysis is in progress (`reached` but not `done`) answers "does not
+  consume, any first character".  State that Go keeps by mutating nodes in place is threaded
+  explicitly: `bodies` = the current body of every rule.
 -/
 namespace PegVerif
 open MSet
@@ -24,6 +25,7 @@ deriving Repr, Inhabited
 
 structure OSt where
   reached : List String := []
+  done : List String := []                      -- cache[i].done: the rule's analysis has finished
   info : List (String × OInfo) := []           -- cache[i].consumes / cache[i].s (survive the passes)
   bodies : List (String × Expr) := []           -- rule bodies as rewritten so far
 deriving Inhabited
@@ -62,6 +64,10 @@ def dotSet : OM MSet := do
   let s ← liftRes "dot" (MSet.add [] (0x110000 : Int))
   pure (MSet.complement s (0x110000 - 1))
 
+/-- The answer for a rule that is `reached` but not `done` (recursion):
+    `s.AddRange(0, unicode.MaxRune)` on a fresh set. -/
+def anySet : OM MSet := liftRes "any" (MSet.addRange [] (0 : Int) (0x10FFFF : Int))
+
 /-- The `intersections` loop: for each alternative but the last, does its set intersect the set
     of a LATER alternative. -/
 def markIntersects : List MSet → List Bool
@@ -85,15 +91,20 @@ mutual
       | .name n =>
         -- TypeName → TypeRule: the cache
         if st.reached.contains n then
-          let i := st.getInfo n
-          pure (i.consumes, i.s, e, st)
+          if !st.done.contains n then do
+            -- recursion: the rule is still being analysed, assume any first character
+            pure (false, ← anySet, e, st)
+          else
+            let i := st.getInfo n
+            pure (i.consumes, i.s, e, st)
         else
           match st.getBody n with
           | none => .error s!"optimise: no rule {n}"
           | some b => do
             let st1 := { st with reached := n :: st.reached }
             let (c, s, b', st2) ← optE firstPass f b st1
-            pure (c, s, e, (st2.setInfo n ⟨c, s⟩).setBody n b')
+            let st3 := (st2.setInfo n ⟨c, s⟩).setBody n b'
+            pure (c, s, e, { st3 with done := n :: st3.done })
       | .dot => do pure (true, ← dotSet, e, st)
       | .chr c => do pure (true, ← liftRes "chr" (MSet.add [] (c : Int)), e, st)
       | .str s =>
@@ -103,10 +114,12 @@ mutual
       | .rng lo hi => do pure (true, ← liftRes "rng" (MSet.addRange [] (lo : Int) (hi : Int)), e, st)
       | .alt es => do
         let (cs, es', st1) ← optL firstPass f es st
-        -- consumes = that of the LAST alternative; s = union of all
-        let consumes := match cs.getLast? with | some p => p.1 | none => true
+        -- consumes = the conjunction over ALL alternatives (starts `true`); s = union of all
+        let consumes := cs.all (·.1)
         let s ← cs.foldlM (fun acc p => liftRes "union" (MSet.union acc p.2)) ([] : MSet)
-        if firstPass then pure (consumes, s, .alt es', st1)
+        -- `if firstPass || !consumes { break }`: a choice with an alternative that may match
+        -- without consuming stays ordered
+        if firstPass || !consumes then pure (consumes, s, .alt es', st1)
         else
           let sets := cs.map (·.2)
           let marks := markIntersects sets
@@ -183,7 +196,7 @@ def optimise (G : Grammar) : OM Grammar :=
     let fuel := 100000
     let st0 : OSt := { bodies := G.rules.map (fun r => (r.name, r.body)) }
     let (_, _, _, st1) ← optE true fuel (.name r.name) st0
-    let (_, _, _, st2) ← optE false fuel (.name r.name) { st1 with reached := [] }
+    let (_, _, _, st2) ← optE false fuel (.name r.name) { st1 with reached := [], done := [] }
     pure { rules := G.rules.map (fun r =>
       match (st2.bodies.find? (·.1 == r.name)) with
       | some p => { r with body := p.2 }
